@@ -164,7 +164,11 @@ class DimensionLink:
         if self._data_object_type == "DataArray":
             return lobj.get_attr("unit")
         elif self._data_object_type == "DataFrame":
-            return lobj.get_attr("units")[self.index]
+            units = lobj.get_attr("units")
+            if units is None:
+                # a frame without units
+                return None
+            return units[self.index] or None
         else:
             raise RuntimeError("Invalid DataObjectType attribute found in "
                                "DimensionLink")
